@@ -169,6 +169,12 @@ def step(w, op, ctx, hist, step_no):
         elif kind == "close":
             w.hub.closeCom(op[1])
             return True
+        elif kind == "closeall":
+            w.hub.closeAll()
+            return True
+        elif kind == "openall":
+            w.hub.openAll()
+            return True
         elif kind == "get":
             got = w.hub.getData(op[1])
         elif kind == "send":
@@ -318,8 +324,10 @@ def random_history(rng, names):
     ops = []
     allnames = list(names) + ["Z"]
     for _ in range(L):
-        k = gen.pick(rng, ["fwd", "fwd", "del", "sink", "src", "inject", "inject", "inject", "inject_falsy", "get", "get", "send", "spin", "spin", "close", "open", "fault"])
-        if k in ("fwd", "del"):
+        k = gen.pick(rng, ["fwd", "fwd", "del", "sink", "src", "inject", "inject", "inject", "inject_falsy", "get", "get", "send", "spin", "spin", "close", "open", "fault", "closeall", "openall"])
+        if k in ("closeall", "openall"):
+            ops.append((k,))
+        elif k in ("fwd", "del"):
             ops.append((k, gen.pick(rng, allnames), gen.pick(rng, allnames)))
         elif k == "sink":
             ops.append((k, gen.pick(rng, allnames), gen.pick(rng, sinks + [None]) if sinks else None))
